@@ -20,7 +20,10 @@ type Net struct {
 	Nodes map[uint64]*rchord.LocalNode
 	views map[[2]uint64]*View
 	Dead  map[uint64]bool
-	Calls []Call // numbered log of delivered/attempted calls
+	Calls []Call // numbered log of delivered/attempted calls (only when Record or Decide is set)
+	Record bool
+	occ    map[string]int
+	nseq   int
 	// Decide is consulted for every call; nil = no fault.
 	Decide func(c *Call) FaultMode
 }
@@ -109,14 +112,16 @@ func (v *View) inner() *rchord.LocalNode { return v.net.Nodes[v.to] }
 // begin numbers the call and decides its fate. deliver=false: fail before delivery.
 func (v *View) begin(method string) (c *Call, err error) {
 	nt := v.net
-	occ := 1
-	for _, p := range nt.Calls {
-		if p.Method == method {
-			occ++
-		}
+	if nt.occ == nil {
+		nt.occ = map[string]int{}
 	}
-	nt.Calls = append(nt.Calls, Call{Seq: len(nt.Calls), From: v.from, To: v.to, Method: method, Occ: occ})
-	c = &nt.Calls[len(nt.Calls)-1]
+	nt.occ[method]++
+	c = &Call{Seq: nt.nseq, From: v.from, To: v.to, Method: method, Occ: nt.occ[method]}
+	nt.nseq++
+	if nt.Record || nt.Decide != nil {
+		nt.Calls = append(nt.Calls, *c)
+		c = &nt.Calls[len(nt.Calls)-1]
+	}
 	if nt.Dead[v.to] {
 		return c, ErrUnreachable
 	}
